@@ -504,6 +504,30 @@ def rule_r7(repo, run):
                                   "index 0, elsewhere a raw carriage return is written into the generated file", m.loc(node))
     if ncr < 1:
         raise AnalysisError("C13.R7: no \\r directive found in the templates; rule would be vacuous")
+    # `use m, only : a, b, ...` and `import :: a, b, ...` grow with the number of kinds a procedure uses: joined with a hint too
+    nu = 0
+    for q, fn in sorted(repo.module("wrapf").functions().items()):
+        wfm = repo.module("wrapf")
+        for e in ast.walk(fn):
+            if not isinstance(e, ast.BinOp):
+                continue
+            lead = None
+            if isinstance(e.op, ast.Mod) and isinstance(e.left, ast.Constant) and isinstance(e.left.value, str):
+                lead = e.left.value
+            elif isinstance(e.op, ast.Add) and isinstance(e.left, ast.Constant) and isinstance(e.left.value, str):
+                lead = e.left.value
+            if lead is None or not re.search(r"only\s*:|import\s*::", lead):
+                continue
+            for j in ast.walk(e.right):
+                if isinstance(j, ast.Call) and isinstance(j.func, ast.Attribute) and j.func.attr == "join" \
+                        and isinstance(j.func.value, ast.Constant) and "," in str(j.func.value.value):
+                    nu += 1
+                    run.check(R, "wrapf.%s:join@%s" % (q, lead.strip()[:20]), "\t" in j.func.value.value,
+                              "the name list after `%s` is joined with %r: a procedure that uses a dozen kinds gets a line of "
+                              "150 columns that cannot be continued (gfortran: line truncated)" % (lead.strip(), j.func.value.value),
+                              wfm.loc(j))
+    if nu < 3:
+        raise AnalysisError("C13.R7: use/import name lists not found in wrapf (%d)" % nu)
     # comma lists of dummy arguments are joined with a break hint
     wf = repo.module("wrapf")
     nj = 0
